@@ -3,7 +3,7 @@
 # usage: tools/try_seed.sh <patch.diff> <tier> <ID> [ID ...]
 here="$(cd "$(dirname "$0")/.." && pwd)"
 patch="$1"; tier="$2"; shift 2
-work=/tmp/verif-seed-work
+work="${VERIF_SEED_WORK:-/tmp/verif-seed-work}"
 rm -rf "$work/repo" "$work/verif"; mkdir -p "$work/repo" "$work/verif"
 cp -r /repo/src /repo/README.md /repo/Cargo.toml "$work/repo/"
 (cd "$work/repo" && patch -p1 -s < "$patch") || { echo "patch does not apply to /repo's tree"; exit 2; }
